@@ -94,7 +94,11 @@ def changeOkB (best : Ag) (evals evals' : List (Pos × Int)) (pop pop' : List Ag
 def coveredB (best : Ag) (evals' : List (Pos × Int)) (pop' : List Ag) (v : Int) : Bool :=
   decide (best.fit ≤ v) || pop'.any (fun b => truthB evals' b && decide (b.fit ≤ v))
 
-def clipAg (cfg : Cfg) (a : Ag) : Ag := { a with pos := clipPos cfg.lbs cfg.ubs a.pos }
+/-- limit enforcement on one agent; outside the swarm family the stored fitness is tied to the
+    current position, so `tpos` follows it -/
+def clipAg (cfg : Cfg) (a : Ag) : Ag :=
+  let p := clipPos cfg.lbs cfg.ubs a.pos
+  { a with pos := p, tpos := if cfg.swarm then a.tpos else p }
 
 /-- the loop body of `Optimizer._evaluate` / `PSO._evaluate` for the agent under the cursor -/
 def sweepAgent (cfg : Cfg) (a : Ag) (v : Int) : Ag :=
